@@ -9,6 +9,8 @@
 //	events  ";"-separated, "-" for none
 //	  editor actions (disk write BEFORE the notification, as an editor does):
 //	    o<f>            didOpen with the disk text (skipped when the file is not on disk or already open)
+//	    o<f>=<content>  didOpen with this text - a restored unsaved buffer (same preconditions; the document has unsaved
+//	                    edits from then on when the text is not the file's)
 //	    c<f>=<content>  didChange, full text (skipped when not open)
 //	    s<f>            write buffer to disk, didSave with text (skipped when not open)
 //	    x<f>            didClose (skipped when not open)
@@ -174,13 +176,17 @@ func (e *c08Env) do(ev string) {
 	kind, rest := ev[0], ev[1:]
 	switch kind {
 	case 'o':
-		f, _ := c08SplitEq(rest)
+		f, with := c08SplitEq(rest)
 		code, ok := e.disk[f]
 		if _, open := e.buf[f]; !ok || open {
 			return
 		}
-		e.buf[f] = code
 		delete(e.dirty, f)
+		if strings.Contains(rest, "=") && c08Render(with) != c08Render(code) {
+			code = with
+			e.dirty[f] = true
+		}
+		e.buf[f] = code
 		e.srv.didOpen(e.paths[f], c08Render(code))
 	case 'c':
 		f, code := c08SplitEq(rest)
@@ -379,6 +385,7 @@ func init() {
 	register("c08.anntype", c08History)
 	register("c08.annraw", c08History)
 	register("c08.indir", c08History)
+	register("c08.opentext", c08History)
 	register("c08.one", c08One)
 	register("c08.fresh", c08Fresh)
 }
